@@ -74,8 +74,6 @@ PARTIAL = [
     "arrays with arbitrary names, local / total magnetisation, per-site factor lists and operator names",
     "F-C19b (recorded, open): attach_node_right_end on a hand-made chain whose root is the leftmost site uses the "
     "root's first open leg",
-    "F-C19a: the 2-D Ising builders omit the field term on a 1x1 grid; theorem ising_grid_terms_partial assumes "
-    "rows*cols >= 2, theorem ising_grid_1x1_empty is the witness of the negation",
 ]
 ASSUMPTIONS = [
     "NumPy einsum/tensordot/kron/pad semantics; dict and list iteration orders of CPython",
@@ -2129,11 +2127,7 @@ def _case_model(ctx, case, model_out):
     ref = ising_reference(order, edges, J, g, A, B)
     scale = max(1.0, abs(J), abs(g))
     if not _close(got, ref, scale=scale):
-        finding = None
-        if grid and rows == 1 and cols == 1:
-            # F-C19a: the field term of the only site is missing; residual = +g * B
-            if _close(got - ref, g * B, scale=scale):
-                finding = "F-C19a"
+        finding = None          # (F-C19a - 1x1 grid without its field term - was repaired in b96dc53: a violation again)
         ctx.oracle_fail(case, f"{'flipped ' if flipped else ''}Ising builder on {shape} "
                               f"{key[1:]} with J={J!r}, g={g!r}: operator differs from -J sum A_i A_j - g sum B_i "
                               f"by {np.abs(got - ref).max():.3g} ({len(ham.terms)} terms)", finding=finding)
